@@ -96,6 +96,16 @@ def decUserCount (v : HandlerVec α) (l : Locator) : Except Panic (HandlerVec α
       | .error e => .error e
       | .ok t => .ok { items := v.items.set l.idx { it with userCount := c }, userCount := t }
 
+/-- `if let Some(idx) = locator { vec.inc_user_count(idx) }` (`:215-226,248-250`). -/
+def incOptional (v : HandlerVec α) : Option Locator → Except Panic (HandlerVec α)
+  | some idx => v.incUserCount idx
+  | none => .ok v
+
+/-- `if let Some(idx) = locator { vec.dec_user_count(idx) }` (`:239-245`). -/
+def decOptional (v : HandlerVec α) : Option Locator → Except Panic (HandlerVec α)
+  | some idx => v.decUserCount idx
+  | none => .ok v
+
 /-- `HandlerVec::has_active` (`:79`). -/
 def hasActive (v : HandlerVec α) : Bool := decide (0 < v.userCount)
 
@@ -275,25 +285,13 @@ def startMatching (d : Dispatcher) (matchId : Nat) (withContent : Bool) : Except
   match d.locators[matchId]? with
   | none => .error .badMatchId
   | some loc =>
-    let step1 : Except Panic (HandlerVec HId) :=
-      match withContent, loc.comment with
-      | true, some idx => d.comment.incUserCount idx
-      | _, _ => .ok d.comment
-    match step1 with
+    match (if withContent then d.comment.incOptional loc.comment else .ok d.comment) with
     | .error e => .error e
     | .ok co =>
-      let step2 : Except Panic (HandlerVec HId) :=
-        match withContent, loc.text with
-        | true, some idx => d.text.incUserCount idx
-        | _, _ => .ok d.text
-      match step2 with
+      match (if withContent then d.text.incOptional loc.text else .ok d.text) with
       | .error e => .error e
       | .ok tx =>
-        let step3 : Except Panic (HandlerVec HId) :=
-          match loc.element with
-          | some idx => d.element.incUserCount idx
-          | none => .ok d.element
-        match step3 with
+        match d.element.incOptional loc.element with
         | .error e => .error e
         | .ok el =>
           .ok { d with comment := co, text := tx, element := el,
@@ -304,18 +302,10 @@ def stopMatchingId (d : Dispatcher) (matchId : Nat) : Except Panic Dispatcher :=
   match d.locators[matchId]? with
   | none => .error .badMatchId
   | some loc =>
-    let step1 : Except Panic (HandlerVec HId) :=
-      match loc.comment with
-      | some idx => d.comment.decUserCount idx
-      | none => .ok d.comment
-    match step1 with
+    match d.comment.decOptional loc.comment with
     | .error e => .error e
     | .ok co =>
-      let step2 : Except Panic (HandlerVec HId) :=
-        match loc.text with
-        | some idx => d.text.decUserCount idx
-        | none => .ok d.text
-      match step2 with
+      match d.text.decOptional loc.text with
       | .error e => .error e
       | .ok tx => .ok { d with comment := co, text := tx }
 
@@ -331,11 +321,7 @@ def stopMatching (d : Dispatcher) (desc : ElementDescriptor) : Except Panic Disp
   match d.stopMatchingIds desc.matched with
   | .error e => .error e
   | .ok d1 =>
-    let step2 : Except Panic (HandlerVec EndTagH) :=
-      match desc.endTagHandlerIdx with
-      | some idx => d1.endTag.incUserCount idx
-      | none => .ok d1.endTag
-    match step2 with
+    match d1.endTag.incOptional desc.endTagHandlerIdx with
     | .error e => .error e
     | .ok et =>
       if desc.removeContent then
